@@ -35,6 +35,8 @@ func hooksByName(P *Program, name string) *Hooks {
 	switch name {
 	case "":
 		return nil
+	case "safety":
+		return &Hooks{paramsNonNil: true}
 	case "rowrite":
 		return &Hooks{
 			onStore: func(g *Gen, st *State, p *Val, pos token.Pos, text string) {
